@@ -113,6 +113,18 @@ theorem make_distinct_terminates (ch : Choice) {σ : St} {fs : List Int} (hv : V
   have := make_distinct_post ch hv
   split at this <;> simp_all
 
+-- [audit] non-vacuity: with an admissible choice (the default `firstMax`) the `.ok` branch of `make_distinct_post` is
+-- really taken on `exσ` (one round that tightens items 0 and 1 twice each, then the early `break` on a definitive
+-- biggest interval): result ranges `[2,2], [1,1], [2,2]`.
+example : (match makeDistinct (choiceOf []) exσ with
+    | .ok σ' r => some (σ'.map (·.cur), r) | _ => none) =
+    some ([⟨.fin 2, .fin 2⟩, ⟨.fin 1, .fin 1⟩, ⟨.fin 2, .fin 2⟩], 1) := by decide +kernel
+
+-- [audit] the `badChoice => True` branch is real: a choice function that does not name a maximal-size interval is NOT
+-- replaced by an admissible one, the run is abandoned and the theorem says nothing about it ("for every ADMISSIBLE
+-- choice"; the driver turns `badChoice` into a stream error).
+example : (match makeDistinct (fun _ _ _ => 2) exσ with | .badChoice => true | _ => false) = true := by decide +kernel
+
 /-! ### 4. `sort` -/
 
 /-- `bounds.sort` with the heap treated as ANY comparison-based priority queue.
@@ -136,6 +148,22 @@ theorem sort_sorted_partial {σ : St} {fs : List Int} (hv : ValidSt σ fs) (evs 
   rw [← hv.1] at hp
   refine ⟨r.adv, inv.sorted, hp, ?_⟩
   intro he; rw [he] at hp; simpa using hp
+
+-- [audit] non-vacuity: a transcript with real tightening inside the comparisons (item 1 is tightened twice by the first
+-- comparison) and a full drain is accepted by `sortReplay` on `exσ`; output `[1, 0, 2]` (final costs 1, 2, 2).
+example : (match sortReplay [.cmp 1 0 false true, .cmp 2 1 false false, .pop 1, .cmp 0 2 true true, .pop 0, .pop 2]
+      (sortInit exσ) with | .ok s => some (s.out, s.remaining) | .error _ => none) = some ([1, 0, 2], []) := by
+  decide +kernel
+
+-- [audit] how weak the hypothesis is on its own: the EMPTY transcript is accepted for every collection, and then the
+-- theorem only says `[]` is sorted.  That the heap performs any comparison, pops anything, or ever empties
+-- (`remaining = []`) is part of the assumed contract, not of the conclusion.
+example (σ : St) : sortReplay [] (sortInit σ) = .ok (sortInit σ) := rfl
+
+-- [audit] a pop that is not certified by performed comparisons is rejected, i.e. "every pop is a minimum w.r.t. the
+-- comparisons made" is ASSUMED by `sort_sorted_partial` (only `lt_consistent` + transitivity remain to be proved).
+example : (match sortReplay [.pop 0] (sortInit exσ) with | .error .unjustified => true | _ => false) = true := by
+  decide +kernel
 
 /-! ### 5. `IterativeTighteningSearch` -/
 
@@ -178,6 +206,11 @@ theorem search_returns_min {σ : St} {fs : List Int} (hv : ValidSt σ fs) (sel :
 
 example : ValidSt exσ [2, 1, 2] ∧ exσ ≠ [] := ⟨exσ_valid, by simp [exσ]⟩
 
+-- [audit] non-vacuity of `h : search … = some s'` on `exσ`, with the constant oracle `none` (always inadmissible, so
+-- every answer is replaced by the first minimal node and `bad` is set): item 1 (final cost 1) wins, `bounds() = [1,1]`.
+example : (search (fun _ => none) (SS.init exσ defaultIb)).map (fun s => (bestMatch s, boundsOf s, goalTest s, s.bad)) =
+    some (some 1, Range.point 1, true, true) := by decide +kernel
+
 /-- **when `search()` ends, `bounds()` is the single value = the minimum final cost**, and `goal_test()` holds. -/
 theorem search_bounds_point {σ : St} {fs : List Int} (hv : ValidSt σ fs) (sel : Sel) {s' : SS}
     (h : search sel (SS.init σ defaultIb) = some s') (hne : σ ≠ []) :
@@ -209,6 +242,13 @@ theorem search_bounds_sound {σ : St} {fs : List Int} (hv : ValidSt σ fs) (sel 
 /-- the states `search()` goes through are of that kind: its final state is reached by `tighten_bounds()` calls -/
 theorem search_reach (sel : Sel) (s s' : SS) (h : search sel s = some s') : SReach sel s s' :=
   searchLoop_reach sel _ s s' h
+
+-- [audit] not visible in the statements above but proved inside `SInv` (`SCore.unsup`): on converging items with the
+-- default `initial_bounds` the model never takes one of its `unsupported` shortcut branches (e.g. "an untightened item
+-- refused to tighten", where Python would walk on through the heap) — in every state `tighten_bounds()` reaches.
+example {σ : St} {fs : List Int} (hv : ValidSt σ fs) (sel : Sel) {s : SS}
+    (hr : SReach sel (SS.init σ defaultIb) s) : s.unsupported = false :=
+  (hr.inv (SInv.init hv)).1.unsup
 
 /-! The restriction to the default `initial_bounds` is necessary: with an explicit `initial_bounds` that contains the
 optimum the real code — and this model, see `corpus/bounded/ib_*.json` — loses optimal items and widens `bounds()`.
